@@ -365,3 +365,205 @@ Proof.
   cbv zeta. split; [exact ex_at|]. split; [apply st_null|]. vm_compute. repeat split.
 Qed.
 End C04_translated_splice.
+
+(* ------------------------------------------------------------------------------------------ *)
+(* THE UNDO BOOKKEEPING IS THE C TEXT (coq/TrUndoBase.v, TrUndo.v, TrUndoOpt.v, TrUndoEdit.v): lbuf_opt, lbuf_edit, lbuf_undo, lbuf_redo of
+   /repo/lbuf.c (and the helpers lbuf_savepos, lbuf_loadpos, lbuf_markcopy, lbuf_savemark, lbuf_loadmark, lopt_done, linecount,
+   uc_dup they call), translated by tools/c2clite.py (tools/c2clite.d/56_undo.list) and run by the checked semantics of coq/CLite.v,
+   RELATIVE to oracles (CLiteExt.callx) for the splice lbuf_replace (X_lbuf_replace; the splice itself is C04_tr_lbuf_replace above)
+   and for lbuf_cp (X_lbuf_cp: the copy of the deleted lines, built through an sbuf).
+   `urep T m bl blk bh hblk lb`: block bl of m is the struct lbuf (75 cells; the 64 mark cells hold ints), its cells useq, hist,
+   hist_sz, hist_n, hist_u, useq_zero, useq_last, ln_n hold the model's values, hist points to block bh = hblk of 9 * hist_sz cells
+   whose first hist_n records of 9 cells represent the model's log entries (ins / del: NULL or the start of a live block that reads
+   the model's text; pos, n_ins, n_del, seq: the model's ints; pos_off: an int; mark / mark_off: both NULL or two distinct live blocks of
+   32 cells, every mark an int and the offset an int where the mark is set), the blocks the log owns are pairwise distinct and distinct
+   from struct and array, and the line table is described by ANY predicate T that reads the memory only through a footprint
+   (T_frame) disjoint from all of that.  The theorems hold for every such T.
+   Not covered: a buffer whose hist is still NULL (the first lbuf_opt after lbuf_make calls memcpy(hist, NULL, 0): undefined by
+   C11 7.24.1p2, rejected by CLite.v -- the same observation as for the line table in C01); the values of marks (no C04 clause reads them). *)
+From Coq Require Lia.
+From NV Require CLiteExt TrLbufBase TrUndoBase TrUndo TrUndoOpt TrUndoEdit.
+Section C04_translated_undo.
+Import Lia CLite CLiteProps CLiteExt GenCFuncs TrLbufBase TrUndoBase TrUndo TrUndoOpt TrUndoEdit.
+Local Open Scope Z_scope.
+
+(* ONE iteration of the loop of lbuf_undo, for EVERY oracle: the cursor moves first (--hist_u), then lbuf_replace is called with the
+   record's inverse arguments (lo->del, lo->pos, lo->n_ins) on exactly that memory, then lbuf_loadpos and the 32 lbuf_loadmark calls
+   change mark cells of the struct only: whatever state the oracle's answer represents is still represented *)
+Theorem C04_tr_undo_step : forall (ext : nat -> list val -> mem -> res (val * mem)) (T : Tpred), T_frame T ->
+  forall (bl bh : nat) (hblk : block) (d fuel : nat) (m : mem) (blk : block) (lb : lbuf) (q : Z) (l2 l3 : val) (fuel' : nat),
+  urep T m bl blk bh hblk lb -> (0 < hist_u lb)%nat -> (32 < fuel')%nat ->
+  let u := (hist_u lb - 1)%nat in let lo := nth u (hist lb) dflt in
+  let blk1 := upd blk L_hist_u (VInt (Z.of_nat u)) in let m1 := upd m bl blk1 in
+  urep T m1 bl blk1 bh hblk (set_hu lb u) /\ sarg m1 (hc hblk (9 * u + 1)) (del lo) /\
+  forall (r : val) (m2 : mem) (blk2 : block) (lb2 : lbuf),
+    ext X_lbuf_replace [VPtr bl 0; hc hblk (9 * u + 1); VInt (Z.of_nat (pos lo)); VInt (Z.of_nat (n_ins lo))] m1 = Ok (r, m2) ->
+    urep T m2 bl blk2 bh hblk lb2 -> (u < length (hist lb2))%nat ->
+    exists (m3 : mem) (blk3 : block),
+      exec (callx ext cprog fuel (S (S (S d)))) fuel' undo_body (mkst [VPtr bl 0; VInt q; l2; l3] m)
+      = ONormal (mkst [VPtr bl 0; VInt q; VInt 32; VPtr bh (Z.of_nat (9 * u))] m3) /\
+      urep T m3 bl blk3 bh hblk lb2.
+Proof. exact undo_step. Qed.
+Print Assumptions C04_tr_undo_step.
+
+(* one iteration of the loop of lbuf_redo: hist_u++, then lbuf_replace(lb, lo->ins, lo->pos, lo->n_del), then lbuf_loadpos *)
+Theorem C04_tr_redo_step : forall (ext : nat -> list val -> mem -> res (val * mem)) (T : Tpred), T_frame T ->
+  forall (bl bh : nat) (hblk : block) (d fuel : nat) (m : mem) (blk : block) (lb : lbuf) (q : Z) (l2 : val) (fuel' : nat),
+  urep T m bl blk bh hblk lb -> (hist_u lb < length (hist lb))%nat ->
+  let u := hist_u lb in let lo := nth u (hist lb) dflt in
+  let blk1 := upd blk L_hist_u (VInt (Z.of_nat (S u))) in let m1 := upd m bl blk1 in
+  urep T m1 bl blk1 bh hblk (set_hu lb (S u)) /\ sarg m1 (hc hblk (9 * u)) (ins lo) /\
+  forall (r : val) (m2 : mem) (blk2 : block) (lb2 : lbuf),
+    ext X_lbuf_replace [VPtr bl 0; hc hblk (9 * u); VInt (Z.of_nat (pos lo)); VInt (Z.of_nat (n_del lo))] m1 = Ok (r, m2) ->
+    urep T m2 bl blk2 bh hblk lb2 -> (u < length (hist lb2))%nat ->
+    exists (m3 : mem) (blk3 : block),
+      exec (callx ext cprog fuel (S (S (S d)))) fuel' redo_body (mkst [VPtr bl 0; VInt q; l2] m)
+      = ONormal (mkst [VPtr bl 0; VInt q; VPtr bh (Z.of_nat (9 * u))] m3) /\
+      urep T m3 bl blk3 bh hblk lb2.
+Proof. exact redo_step. Qed.
+Print Assumptions C04_tr_redo_step.
+
+(* lbuf_undo as a whole, for every oracle that IMPLEMENTS THE MODEL'S SPLICE on the represented state (replace_oracle: called on a
+   memory that represents lb with a string that reads s, inside the table (splice_ok), it returns a memory that represents
+   lbuf_replace lb s pos n_del with the same hist array): the loop runs over exactly the records of the newest not-yet-undone sequence
+   number, newest first (UndoDefs.undo_loop), the memory afterwards represents the model's state (hist_u moved as in the model), the
+   result is 0; when the model fails (hist_u == 0) the result is 1 and the memory is untouched.  undo_ok lb: every splice of the group
+   is one the oracle is obliged to answer (range inside the table, line count inside int). *)
+Theorem C04_tr_lbuf_undo : forall (ext : nat -> list val -> mem -> res (val * mem)) (T : Tpred), T_frame T ->
+  forall (bl bh : nat) (hblk : block) (d fuel : nat), replace_oracle ext T bl ->
+  forall (m : mem) (blk : block) (lb : lbuf), urep T m bl blk bh hblk lb -> undo_ok lb -> (hist_u lb + 33 < fuel)%nat ->
+  match lbuf_undo lb with
+  | Some lb' => exists (m' : mem) (blk' : block),
+      callx ext cprog fuel (S (S (S (S d)))) F_lbuf_undo [VPtr bl 0] m = Ok (VInt 0, m') /\ urep T m' bl blk' bh hblk lb'
+  | None => callx ext cprog fuel (S (S (S (S d)))) F_lbuf_undo [VPtr bl 0] m = Ok (VInt 1, m)
+  end.
+Proof. exact tr_lbuf_undo. Qed.
+Print Assumptions C04_tr_lbuf_undo.
+
+Theorem C04_tr_lbuf_redo : forall (ext : nat -> list val -> mem -> res (val * mem)) (T : Tpred), T_frame T ->
+  forall (bl bh : nat) (hblk : block) (d fuel : nat), replace_oracle ext T bl ->
+  forall (m : mem) (blk : block) (lb : lbuf), urep T m bl blk bh hblk lb -> redo_ok lb -> (length (hist lb) - hist_u lb < fuel)%nat ->
+  match lbuf_redo lb with
+  | Some lb' => exists (m' : mem) (blk' : block),
+      callx ext cprog fuel (S (S (S (S d)))) F_lbuf_redo [VPtr bl 0] m = Ok (VInt 0, m') /\ urep T m' bl blk' bh hblk lb'
+  | None => callx ext cprog fuel (S (S (S (S d)))) F_lbuf_redo [VPtr bl 0] m = Ok (VInt 1, m)
+  end.
+Proof. exact tr_lbuf_redo. Qed.
+Print Assumptions C04_tr_lbuf_redo.
+
+(* lbuf_opt, for every oracle for lbuf_cp that returns a fresh block reading the model's copy of the lines and leaves every older block
+   alone (cp_oracle): the memory afterwards represents UndoDefs.lbuf_opt -- the redo branch dropped (every block its records own freed
+   exactly once through lopt_done: the call returning Ok excludes a double free, and those blocks are empty afterwards), hist[] grown by
+   the model's rule when hist_n == hist_sz (a fresh array of 2 * hist_sz records, the first hist_n records copied, the old array freed,
+   hist and hist_sz stored), one record appended with the model's fields (pos, n_del, del = lbuf_cp or NULL, n_ins = linecount(buf),
+   ins = a fresh copy of buf or NULL, seq = lb->useq), hist_n = hist_u = old hist_u + 1.  Nothing outside the struct, the hist array
+   and the dropped records changes. *)
+Theorem C04_tr_lbuf_opt : forall (ext : nat -> list val -> mem -> res (val * mem)) (d fuel : nat) (T : Tpred), T_frame T ->
+  forall (m : mem) (bl : nat) (blk : block) (bh : nat) (hblk : block) (lb : lbuf) (bufv : val) (buf : option (list N)) (p nd : nat),
+  cp_oracle ext T bl -> urep T m bl blk bh hblk lb -> bufarg m bl bh bufv buf ->
+  (forall (bb : nat) (o : Z), bufv = VPtr bb o -> ~ In bb (log_blocks hblk 0 (length (hist lb)))) ->
+  i31 (p + nd) -> Z.of_nat (hist_sz lb) * 2 <= 2147483647 ->
+  (length (hist lb) - hist_u lb < fuel)%nat -> (linecount buf < fuel)%nat -> (28 < fuel)%nat ->
+  exists (m' : mem) (blk' : block) (bh' : nat) (hblk' : block),
+    callx ext cprog fuel (S (S (S (S d)))) F_lbuf_opt [VPtr bl 0; bufv; VInt (Z.of_nat p); VInt (Z.of_nat nd)] m = Ok (VUndef, m') /\
+    urep T m' bl blk' bh' hblk' (lbuf_opt lb buf p nd) /\
+    (length m <= length m')%nat /\
+    (forall b : nat, (b < length m)%nat -> ~ In b (owned bl bh hblk (length (hist lb))) -> nth_error m' b = nth_error m b) /\
+    (forall b : nat, In b (log_blocks hblk (hist_u lb) (length (hist lb) - hist_u lb)) -> nth_error m' b = Some []) /\
+    (bh' = bh \/ (length m <= bh')%nat /\ nth_error m' bh = Some []).
+Proof. exact tr_lbuf_opt. Qed.
+Print Assumptions C04_tr_lbuf_opt.
+
+(* lbuf_edit: the clamping of beg and end to ln_n, the early return exactly when the model returns its argument (beg == end after the
+   clamping and no text: the memory is untouched), otherwise lbuf_opt and then the splice with the clamped arguments *)
+Theorem C04_tr_lbuf_edit : forall (ext : nat -> list val -> mem -> res (val * mem)) (d fuel : nat) (T : Tpred), T_frame T ->
+  forall (m : mem) (bl : nat) (blk : block) (bh : nat) (hblk : block) (lb : lbuf) (bufv : val) (buf : option (list N)) (b e : nat),
+  replace_oracle ext T bl -> cp_oracle ext T bl -> urep T m bl blk bh hblk lb -> bufarg m bl bh bufv buf ->
+  (forall (bb : nat) (o : Z), bufv = VPtr bb o -> ~ In bb (log_blocks hblk 0 (length (hist lb)))) ->
+  (b <= e)%nat -> i31 e -> i31 (length (ln lb) + linecount buf) -> Z.of_nat (hist_sz lb) * 2 <= 2147483647 ->
+  (length (hist lb) - hist_u lb < fuel)%nat -> (linecount buf < fuel)%nat -> (28 < fuel)%nat ->
+  let b' := Nat.min b (length (ln lb)) in let e' := Nat.min e (length (ln lb)) in
+  if andb (Nat.eqb b' e') (is_none buf)
+  then callx ext cprog fuel (S (S (S (S (S d))))) F_lbuf_edit [VPtr bl 0; bufv; VInt (Z.of_nat b); VInt (Z.of_nat e)] m = Ok (VUndef, m)
+  else exists (m' : mem) (blk' : block) (bh' : nat) (hblk' : block),
+         callx ext cprog fuel (S (S (S (S (S d))))) F_lbuf_edit [VPtr bl 0; bufv; VInt (Z.of_nat b); VInt (Z.of_nat e)] m = Ok (VUndef, m') /\
+         urep T m' bl blk' bh' hblk' (lbuf_edit lb buf b e).
+Proof. exact tr_lbuf_edit. Qed.
+Print Assumptions C04_tr_lbuf_edit.
+
+(* not vacuous, and the translated lbuf_undo RUNS: a log of two records with one sequence number (5) -- record 0 inserted "x\n" at
+   line 0, record 1 deleted "a\n" at line 1 -- in the first blocks behind the program's globals (G = struct, G+1 = hist[4], G+2 / G+3 =
+   the two texts), the lines themselves nowhere (T0: the trivial table predicate), and a TABLE oracle for lbuf_replace that knows the two
+   calls an undo of this group must make, (lo->del, lo->pos, lo->n_ins) of record 1 and then of record 0, answers each by the change of
+   ln_n the splice makes, and logs the arguments of every call in block G+4.  The run returns 0, hist_u is 0, ln_n is 2 + 1 - 1, and the
+   log shows the two calls with the inverse arguments in the model's order (newest record first); the state satisfies urep, the model
+   undoes the same two records, and T0 satisfies T_frame. *)
+Definition ux_G : nat := Eval vm_compute in length cglobals.
+Definition ux_struct : block :=
+  repeat (VInt (-1)) 32 ++ repeat (VInt 0) 32 ++
+  [VInt 0; VInt 0; VInt 2; VInt 4; VInt 6; VPtr (ux_G + 1) 0; VInt 4; VInt 2; VInt 2; VInt 0; VInt 4].
+Definition ux_hist : block :=
+  [VPtr (ux_G + 2) 0; VInt 0; VInt 0; VInt 1; VInt 0; VInt 0; VInt 5; VInt 0; VInt 0;
+   VInt 0; VPtr (ux_G + 3) 0; VInt 1; VInt 0; VInt 1; VInt 0; VInt 5; VInt 0; VInt 0] ++ repeat VUndef 18.
+Definition ux_mem : mem := cglobals ++ [ux_struct; ux_hist; cstr_block [120; 10]; cstr_block [97; 10]; repeat (VInt 0) 10].
+Definition ux_lb : lbuf :=
+  {| ln := [[120; 10]; [98; 10]]%N;
+     hist := [ {| pos := 0; n_ins := 1; n_del := 0; del := None; ins := Some [120; 10]%N; seq := 5 |};
+               {| pos := 1; n_ins := 0; n_del := 1; del := Some [97; 10]%N; ins := None; seq := 5 |} ];
+     hist_u := 2; hist_sz := 4; useq := 6; useq_zero := 0; useq_last := 4 |}.
+Definition val_eqb (a b : val) : bool :=
+  match a, b with
+  | VInt x, VInt y => x =? y
+  | VPtr b1 o1, VPtr b2 o2 => andb (Nat.eqb b1 b2) (o1 =? o2)
+  | VUndef, VUndef => true
+  | _, _ => false
+  end.
+(* (string argument, pos, n_del) -> change of ln_n *)
+Definition ux_table : list (val * Z * Z * Z) := [(VPtr (ux_G + 3) 0, 1, 0, 1); (VInt 0, 0, 1, -1)].
+Definition ux_ext : nat -> list val -> mem -> res (val * mem) := fun f args m =>
+  if Nat.eqb f X_lbuf_replace then
+    match args with
+    | [VPtr b 0; sv; VInt p; VInt n] =>
+        match find (fun e => match e with (s0, p0, n0, _) => andb (andb (val_eqb s0 sv) (p0 =? p)) (n0 =? n) end) ux_table with
+        | Some (_, _, _, dl) =>
+            do k <- load m (ux_G + 4) 0; do kz <- as_int k; do c <- load m b 66; do cz <- as_int c;
+            do m1 <- store m (ux_G + 4) (1 + 3 * kz) sv; do m2 <- store m1 (ux_G + 4) (2 + 3 * kz) (VInt p);
+            do m3 <- store m2 (ux_G + 4) (3 + 3 * kz) (VInt n); do m4 <- store m3 (ux_G + 4) 0 (VInt (kz + 1));
+            do m5 <- store m4 b 66 (VInt (cz + dl)); Ok (VUndef, m5)
+        | None => Err EShape
+        end
+    | _ => Err EShape
+    end
+  else Err EShape.
+Definition T0 : Tpred := fun _ _ fp _ => fp = [].
+
+Example C04_tr_lbuf_undo_runs :
+  match callx ux_ext cprog 100 6 F_lbuf_undo [VPtr ux_G 0] ux_mem with
+  | Ok (v, m') => Some (v, firstn 7 (nth (ux_G + 4) m' []), nth 66 (nth ux_G m' []) VUndef, nth 72 (nth ux_G m' []) VUndef)
+  | Err _ => None
+  end = Some (VInt 0, [VInt 2; VPtr (ux_G + 3) 0; VInt 1; VInt 0; VInt 0; VInt 0; VInt 1], VInt 2, VInt 0) /\
+  T_frame T0 /\ urep T0 ux_mem ux_G ux_struct (ux_G + 1) ux_hist ux_lb /\ undo_ok ux_lb /\
+  option_map (fun l => (hist_u l, ln l)) (lbuf_undo ux_lb) = Some (0%nat, [[97; 10]; [98; 10]]%N) /\
+  map (fun lo => (del lo, pos lo, n_ins lo)) (rev (hist ux_lb)) = [(Some [97; 10]%N, 1%nat, 0%nat); (None, 0%nat, 1%nat)].
+Proof.
+  split; [vm_compute; reflexivity|]. split; [intros m m' cs fp t H _; exact H|]. split; [|split; [|split; vm_compute; reflexivity]].
+  - constructor; try reflexivity.
+    + intros j Hj. do 64 (destruct j as [|j]; [eexists; reflexivity|]). lia.
+    + unfold i31. cbn. lia.
+    + unfold i32, i31. cbn. repeat split; lia.
+    + intros i Hi. cbn [ux_lb hist length] in Hi. destruct i as [|[|i]]; [| |lia].
+      * constructor; unfold hc; cbn [ux_lb hist nth ins del pos n_ins n_del seq]; try reflexivity.
+        -- cbn [sown]. split; [repeat constructor; lia|]. exists (ux_G + 2)%nat. split; [reflexivity|]. eexists. split; [reflexivity|]. split; [lia|reflexivity].
+        -- eexists. reflexivity.
+        -- left. split; reflexivity.
+        -- unfold i31, i32. cbn. repeat split; lia.
+      * constructor; unfold hc; cbn [ux_lb hist nth ins del pos n_ins n_del seq]; try reflexivity.
+        -- cbn [sown]. split; [repeat constructor; lia|]. exists (ux_G + 3)%nat. split; [reflexivity|]. eexists. split; [reflexivity|]. split; [lia|reflexivity].
+        -- eexists. reflexivity.
+        -- left. split; reflexivity.
+        -- unfold i31, i32. cbn. repeat split; lia.
+    + vm_compute. repeat constructor; cbn; intuition discriminate.
+    + exists []. split; [reflexivity|]. intros b [].
+  - unfold undo_ok. cbn. unfold splice_ok, i31. cbn. repeat split; lia.
+Qed.
+End C04_translated_undo.
